@@ -483,6 +483,7 @@ func genC02(t *rapid.T) c02Case {
 		c.S.Final = ErrSpec{Kind: "nil"}
 		c.S.Chunked = false    // the recorded reply's last byte is the body's last byte
 		c.S.PreSendHdr = false // the cut counts the bytes of the one scripted call
+		c.S.SlowFinish = false // (many runs per case)
 		if c.S.Kind == kClientStream {
 			c.S.HOps = []HOp{{Op: "send", Msg: 0}}
 		}
